@@ -45,7 +45,9 @@ def fit_case(draw, accuracy=None):
     return dict(system=sysd, rows=rows, W=W, entry=draw(st.sampled_from(["function", "estimator"])),
                 accuracy=(draw(st.sampled_from(["default", "default", "high"])) if accuracy is None else accuracy),
                 layout=draw(st.sampled_from(["C", "C", "F", "strided"])), proportional=_prop,
-                form=draw(st.sampled_from([None, None, None, "list"])))
+                form=draw(st.sampled_from([None, None, None, "list"])),
+                # how many targets are stacked into one problem (a performance setting only)
+                batch_size=draw(st.sampled_from([None, None, None, 2, 3, "full"])))
 
 
 def run_fit(sv: Sys, B, W, entry, opt):
@@ -88,6 +90,8 @@ def body_fit(case):
         W = Wcall = gens.with_layout(W, case.get("layout"))
     acc = case["accuracy"]
     opt = dict(HIGH_ACC) if acc == "high" else {}
+    if case.get("batch_size") is not None:
+        opt["batch_size"] = case["batch_size"]
     tol = TOL[acc]
     B0 = B.copy()
     X, Bp = run_fit(sv, (gens.as_form(B, case["form"]) if case.get("form") else B), Wcall, entry, opt)
